@@ -552,7 +552,7 @@ PLAN = {
     "C11": ((0, 1, 2), [("g3", 7, 40), ("g3s", 3, 16), ("g4", 35, 350)]),
     "C12": ((0,), [("g1", 200, 3000), ("g2", 40, 800), ("g5", 40, 800)]),
     "C13": ((0, 1, 2), [("g1", 200, 3000), ("g2", 40, 800), ("g3", 4, 24), ("g5", 30, 600), ("g10", 12, 60), ("g4", 35, 350), ("g11", 30, 300)]),
-    "C14": ((0, 1, 2), [("g8", 12, 150), ("g1", 60, 600)]),
+    "C14": ((0, 1, 2), [("g12", 6, 24), ("g8", 12, 150), ("g1", 60, 600)]),
     "C15": ((0, 1, 2), [("g1", 200, 3000), ("g2", 40, 800), ("g3", 5, 30), ("g5", 30, 600), ("g4", 35, 350)]),
 }
 
@@ -628,8 +628,41 @@ def g11_wide(rng, n, prefix="g11"):
     return cases
 
 
+
+def g12_threads(rng, n, prefix="g12"):
+    """thread stress: patterns 'uvw' / 'vz' per letter group, so that the haystack unit 'uvz'
+    leaves the state of 'uv' through its fail link at every third byte; eight periodic haystacks
+    with different groups, searched by eight threads at once for a time budget (op X)"""
+    cases = []
+    ascii_pool = [bytes([c]) for c in range(0x61, 0x7b)]
+    wide_pool = [ch.encode() for ch in "äöüßéèêçñαβγδεζηθικλμあいうえおかきくけこ"]
+    for k in range(n):
+        var = "cw" if k % 2 else "bw"
+        pool = list(ascii_pool if k % 4 < 2 else ascii_pool[:10] + wide_pool)
+        # shuffle deterministically
+        for i in range(len(pool) - 1, 0, -1):
+            j = rng.below(i + 1)
+            pool[i], pool[j] = pool[j], pool[i]
+        ngroups = 4
+        pats, units = [], []
+        for gi in range(ngroups):
+            u, v, w, z = pool[4 * gi:4 * gi + 4]
+            pats += [u + v + w, v + z]
+            units.append(u + v + z)
+        if k % 3 == 0:
+            pats.append(units[0][:len(pool[0])] if False else pool[16])
+        pats = uniq(pats)
+        reps = 16 + rng.below(24)
+        hays = [units[i] * reps for i in range(ngroups)]
+        hays += [(units[i] + units[(i + 1) % ngroups]) * (reps // 2) for i in range(ngroups)]
+        kind = [0, 1][k % 2] if 1 in KINDS else 0
+        cases.append(Case(f"{prefix}_{k}", var, kind, 16, "u32", "values", "SMX",
+                          [(p, 100 + j) for j, p in enumerate(pats)], hays, b"", suite="threads"))
+    return cases
+
+
 GENS = {"g11": g11_wide, "g4": g4_fill, "g3s": g3_sparse, "g1": g1_small, "g2": g2_bytes, "g3": g3_blocks, "g5": g5_utf8, "g6": g6_invalid,
-        "g7": g7_values, "g8": g8_perm, "g9": g9_orders, "g10": g10_failchains}
+        "g7": g7_values, "g8": g8_perm, "g9": g9_orders, "g10": g10_failchains, "g12": g12_threads}
 
 
 def suites_for(prop, seed, tier):
